@@ -65,6 +65,15 @@ pub fn kmeans_spec() -> BuilderSpec {
     }
 }
 
+/// a dataset that carries everything a dataset can carry: targets, sample weights, feature names
+pub fn rich<R: linfa::dataset::Records>(records: R) -> DatasetBase<R, ndarray::Array1<usize>> {
+    let n = records.nsamples();
+    let d = records.nfeatures();
+    DatasetBase::new(records, ndarray::Array1::from_shape_fn(n, |i| i % 3))
+        .with_weights(ndarray::Array1::from_shape_fn(n, |i| 0.5 + i as f32))
+        .with_feature_names((0..d).map(|j| format!("feature_{}", j)).collect::<Vec<_>>())
+}
+
 fn nn_of(tag: &str) -> linfa_nn::CommonNearestNeighbour {
     match tag {
         "balltree" => linfa_nn::CommonNearestNeighbour::BallTree,
@@ -86,14 +95,14 @@ fn kmeans_init<F: Float>(tag: &str, n_clusters: usize) -> linfa_clustering::KMea
 }
 
 fn kmeans<F: Float>(case: &Case, spec: &BuilderSpec, out: &mut Outcome) {
-    let ds = DatasetBase::from(blobs::<F>());
+    let ds = rich(blobs::<F>());
     // n_clusters is a constructor argument (no setter): the history keeps it fixed
     let base = || KMeans::<F, L2Dist>::params_with(case.u("n_clusters") as usize, Xoshiro256Plus::seed_from_u64(42), L2Dist);
     let set = |mut p: linfa_clustering::KMeansParams<F, Xoshiro256Plus, L2Dist>, c: &Case| { if c.moved(&["n_runs"]) { p = p.n_runs(c.u("n_runs") as usize); } if c.moved(&["tolerance"]) { p = p.tolerance(F::cast(c.f("tolerance"))); } if c.moved(&["max_n_iterations"]) { p = p.max_n_iterations(c.u("max_n_iterations")); } if c.moved(&["init"]) { p = p.init_method(kmeans_init::<F>(c.s("init"), case.u("n_clusters") as usize)); } p };
     let make = || set(base(), case);
     let ops = vec![
-        op(&make, "fit", |p| p.fit(&ds).map(|m| dbg(&m)).map_err(|e: KMeansError| dbg(&e)), |p| p.fit(&ds).map(|m| dbg(&m)).map_err(|e: KMeansError| dbg(&e)), |e| dbg(&KMeansError::from(e))),
-        op(&make, "fit_with", |p| p.fit_with(None, &ds).map(|m| dbg(&m)).map_err(|e: IncrKMeansError<_>| dbg(&e)), |p| p.fit_with(None, &ds).map(|m| dbg(&m)).map_err(|e: IncrKMeansError<_>| dbg(&e)), |e| dbg(&IncrKMeansError::<KMeans<F, L2Dist>>::from(e))),
+        op(&make, "fit", |p| p.fit(&ds).map(|m| dbg(&m)).map_err(|e: KMeansError| dbg(&e)), |p| p.fit(&ds).map(|m| dbg(&m)).map_err(|e: KMeansError| dbg(&e)), |e| dbg(&KMeansError::InvalidParams(e))),
+        op(&make, "fit_with", |p| p.fit_with(None, &ds).map(|m| dbg(&m)).map_err(|e: IncrKMeansError<_>| dbg(&e)), |p| p.fit_with(None, &ds).map(|m| dbg(&m)).map_err(|e: IncrKMeansError<_>| dbg(&e)), |e| dbg(&IncrKMeansError::<KMeans<F, L2Dist>>::InvalidParams(e))),
     ];
     let rb_init = |p: linfa_clustering::KMeansParams<F, Xoshiro256Plus, L2Dist>, c: &Case| p.init_method(kmeans_init::<F>(c.s("init"), case.u("n_clusters") as usize));
     judge(case, spec, &base, &set, Some(&|p| p.clone()), &[("init_method", &rb_init)], &|p| dbg(p), &|c| dbg(c), ops, out);
@@ -132,7 +141,7 @@ fn dbscan<F: Float>(case: &Case, spec: &BuilderSpec, out: &mut Outcome) {
     let make = || set(base(), case);
     let ops = vec![
         op(&make, "transform", |p| p.transform(&data).map(|m| dbg(&m)).map_err(|e| dbg(&e)), |p| Ok(dbg(&p.transform(&data))), |e| dbg(&e)),
-        op(&make, "transform_dataset", |p| p.transform(DatasetBase::from(data.clone())).map(|m| dbg(m.targets())).map_err(|e| dbg(&e)), |p| Ok(dbg(p.transform(DatasetBase::from(data.clone())).targets())), |e| dbg(&e)),
+        op(&make, "transform_dataset", |p| p.transform(rich(data.clone())).map(|m| ds_print(dbg(m.records()), &m, dbg(m.targets()))).map_err(|e| dbg(&e)), |p| { let m = p.transform(rich(data.clone())); Ok(ds_print(dbg(m.records()), &m, dbg(m.targets()))) }, |e| dbg(&e)),
     ];
     let rb_dist = |p: linfa_clustering::DbscanParams<F, L2Dist, linfa_nn::CommonNearestNeighbour>, _c: &Case| p.dist_fn(L2Dist);
     let rb_nn = |p: linfa_clustering::DbscanParams<F, L2Dist, linfa_nn::CommonNearestNeighbour>, c: &Case| p.nn_algo(nn_of(c.s("nn_algo")));
@@ -332,7 +341,18 @@ fn hierarchical<F: Float>(case0: &Case, spec: &BuilderSpec, out: &mut Outcome) {
         p
     };
     let make = || set(base(), case);
-    let ops = vec![op(&make, "transform", |p| p.transform(kernel()).map(|m| dbg(&canon_partition(m.targets()))).map_err(|e| dbg(&e)), |p| Ok(dbg(&canon_partition(p.transform(kernel()).targets()))), |e| dbg(&e))];
+    let ops_ds = op(
+        &make,
+        "transform_dataset",
+        |p| p.transform(rich(kernel())).map(|m| ds_print_plain("<kernel>".into(), &m, dbg(&canon_partition(m.targets())))).map_err(|e| dbg(&e)),
+        |p| {
+            let m = p.transform(rich(kernel()));
+            Ok(ds_print_plain("<kernel>".into(), &m, dbg(&canon_partition(m.targets()))))
+        },
+        |e| dbg(&e),
+    );
+    let mut ops = vec![op(&make, "transform", |p| p.transform(kernel()).map(|m| dbg(&canon_partition(m.targets()))).map_err(|e| dbg(&e)), |p| Ok(dbg(&canon_partition(p.transform(kernel()).targets()))), |e| dbg(&e))];
+    ops.push(ops_ds);
     let rb_method = |p: HierarchicalCluster<F>, _c: &Case| p.with_method(linfa_hierarchical::Method::Average);
     judge(case, spec, &base, &set, Some(&|p| p.clone()), &[("with_method", &rb_method)], &|p| dbg(p), &|c| dbg(c), ops, out);
 }
